@@ -43,7 +43,8 @@ EXPECTED_PROBES = ["probe_frame_fragmented", "probe_frames_coalesced", "probe_un
                    "probe_remote_fn_definition", "probe_burst", "probe_big_response", "probe_nested_list", "probe_dictionary_value", "probe_server_error_last",
                    "probe_same_text_after_remote_set", "probe_unencodable_request_in_burst", "probe_equal_text_of_different_kinds",
                    "probe_second_connection_reads_during_a_call", "probe_response_above_16MiB",
-                   "probe_remote_definition_of_a_function_used_locally_first", "probe_chain_backend", "probe_unbound_symbol", "net_stall"]
+                   "probe_remote_definition_of_a_function_used_locally_first", "probe_chain_backend", "probe_unbound_symbol", "net_stall",
+                   "probe_client_connects_during_a_call"]
 WALL_CAP = {"quick": 400, "thorough": 3600}
 EXHAUSTIVE_NOTE = "configuration 'cuts' enumerates every (a<=b) split of the concatenated frames into three reads exhaustively for each generated case"
 
@@ -104,7 +105,10 @@ def scenario(ch, cfg):
     pool = list(FN_DEFS)
     defs = [pool.pop(ch.draw(len(pool), "def")) for _ in range(ndefs)]
     boot = [f"{n}::{body}" for n, body, _ in defs] + ["gv::[1 2 3]", 'gs::"text"', "g0::100", "useg::{x+g0}", "nctr::0", "nil::{nctr::nctr+1;nctr*7}",
-                                                       "slow::{[gv];gv::x+1;yieldfn(0);gv}"]
+                                                       "slow::{[gv];gv::x+1;yieldfn(0);gv}",
+                                                       # a connection callback (it runs whenever a client connects) and a function that
+                                                       # reads its parameter after it has taken a while
+                                                       "ocnt::0", ".srv.o::{[oh];oh::x;ocnt::ocnt+1;yieldfn(0);oh}", "slowx::{[gv];gv::x+1;yieldfn(0);gv+x}"]
 
     def yieldfn(x):
         # a server-side function that takes a while (the other loops and threads run meanwhile)
@@ -177,7 +181,7 @@ def scenario(ch, cfg):
         cl(f"f::.cli({PORT})")
         for i in range(nops):
             last = i == nops - 1
-            k = ch.weighted([6, 4, 4, 4, 2, 2, 2, 2, 2, 1 if last else 0, 2, 1, 1], "op")
+            k = ch.weighted([6, 4, 4, 4, 2, 2, 2, 2, 2, 1 if last else 0, 2, 1, 1, 1], "op")
             if k == 0:      # f("expr")
                 m = ch.weighted([5, 2, 2, 1, 1, 1], "expr")
                 if m == 0:
@@ -448,6 +452,28 @@ def scenario(ch, cfg):
                 if res2.get("v") != want2:
                     viol("C13:value-mismatch:dict-get-during-another-call", f"second connection d?:gv while f(:slow,42) was running on the server gave "
                          f"{str(res2.get('v'))[:100]}; the server's gv is {str(want2)[:100]}")
+            elif k == 13:   # another client connects (the server's .srv.o callback runs) while this client's call is running on the server
+                stats["probe_client_connects_during_a_call"] += 1
+                from sim.klnode import Node
+                newc = Node(w, net, f"E{i}")
+                delay = ch.draw(12, "conndelay")
+                res3 = {}
+
+                def connector(newc=newc, delay=delay, res3=res3):
+                    for _ in range(delay):
+                        w.yield_point("connector.wait")
+                    try:
+                        newc.klong(f"f::.cli({PORT})")
+                        res3["v"] = "ok"
+                    except BaseException as e:   # noqa
+                        if isinstance(e, SystemExit):
+                            raise
+                        res3["v"] = f"raised {type(e).__name__}"
+                g = w.spawn(f"connector{i}", connector)
+                both("fn-call", "f(:slowx,(,42))", lambda: twin("slowx(42)"))
+                w.block_until(lambda: g.done, "connector.join")
+                if res3.get("v") != "ok":
+                    viol("C13:second-client-cannot-connect-during-a-call", f".cli() of a new client while f(:slowx,42) was running on the server: {res3.get('v')}")
             else:           # failing expression (only as the last operation)
                 expr = ch.pick(["1+", "nosuchfn(1)", "[1 2 3]@99"], "bad")
                 stats["probe_server_error_last"] += 1
